@@ -99,3 +99,38 @@ func SM3(msg []byte) []byte {
 	}
 	return out
 }
+
+// SM3Continue finishes a hash whose first `processed` bytes (a multiple of 64) have already been
+// compressed into the chaining value h, with `rest` still to be hashed. SM3(msg) ==
+// SM3Continue(SM3IV, 0, msg). Used by monitors that start from an arbitrary (injected) chaining value.
+func SM3Continue(h [8]uint32, processed uint64, rest []byte) []byte {
+	l := (processed + uint64(len(rest))) * 8
+	m := make([]byte, 0, len(rest)+72)
+	m = append(m, rest...)
+	m = append(m, 0x80)
+	for len(m)%64 != 56 {
+		m = append(m, 0)
+	}
+	for i := 7; i >= 0; i-- {
+		m = append(m, byte(l>>(8*uint(i))))
+	}
+	v := h
+	for off := 0; off < len(m); off += 64 {
+		sm3Compress(&v, m[off:off+64])
+	}
+	out := make([]byte, 32)
+	for i := 0; i < 8; i++ {
+		out[4*i] = byte(v[i] >> 24)
+		out[4*i+1] = byte(v[i] >> 16)
+		out[4*i+2] = byte(v[i] >> 8)
+		out[4*i+3] = byte(v[i])
+	}
+	return out
+}
+
+// SM3Compress applies the compression function to one 64-byte block.
+func SM3Compress(h [8]uint32, block []byte) [8]uint32 {
+	v := h
+	sm3Compress(&v, block[:64])
+	return v
+}
